@@ -10,6 +10,7 @@ import (
 	"fmt"
 	"math/big"
 	"sort"
+	"strings"
 	"sync"
 	"time"
 
@@ -310,10 +311,15 @@ func (w *World) TreeJSON() map[string]any {
 		ht[n] = int(w.height[id])
 		cls[n] = w.class[id]
 	}
+	idof := map[string]string{}
+	for n := range par {
+		idof[n] = n
+	}
 	for _, v := range w.variants {
 		par[v.name], ht[v.name], cls[v.name] = v.parent, int(v.height), v.class
+		idof[v.name] = v.name[:strings.Index(v.name, "~")]
 	}
-	return map[string]any{"par": par, "h": ht, "cls": cls, "lo": lo, "hi": hi}
+	return map[string]any{"id": idof, "par": par, "h": ht, "cls": cls, "lo": lo, "hi": hi}
 }
 
 func workInt(wk consensus.Work) *big.Int {
